@@ -47,6 +47,12 @@ CHECKS = {
    text="Generated-input search: (a) token soup, statement-keyword soup and multiply-corrupted statements: recovery parsing must return within a generous budget and report an error exactly when strict parsing fails; (b) scripts S1;...;Sn of flat generated statements, each kept or corrupted: recovery must return exactly the trees strict parsing gives for the well-formed segments, in order, and one error per malformed segment naming a token of that segment. Termination is decided by budget, not proved.",
    note="Trusted: gosqlx.Parse of a segment alone as the classifier; parser token indices equal generated token indices (GROUPING SETS, the one compound token that is not re-split, is not generated here).",
    design="4/C12"),
+ "C14": dict(
+   technique="property-based testing: differential between ast.Inspect's visit multiset and a reflection walk over every exported field (generated trees), plus an exhaustive marker sweep over every (node type, node-holding field) of a registry generated from the sources",
+   level="exploration",
+   text="Generated-input search: for trees parsed from generated statements the multiset of (type, content) of nodes handed to ast.Inspect's callback must equal the multiset of node-typed values reachable by reflection through every exported field - missing and extra nodes are both violations. Exhaustive sub-check: for every node type of package ast and every field that can hold a node, a marker planted in that field must be visited (the registry is regenerated from the tree under test, so new types and fields are covered).",
+   note="Trusted: 'part of the tree' = reachable through exported fields; node = T or *T implements ast.Node; empty-interface payload fields are not node holders. One listed finding (window frame bounds) is pinned by the existing suite and therefore not repaired.",
+   design="4/C14"),
 }
 
 def main():
